@@ -3,3 +3,4 @@ pub mod common;
 mod c02;
 mod c08;
 mod c09;
+mod c11;
